@@ -156,9 +156,10 @@ pub fn exec(body: &str, emit: &mut dyn FnMut(&str)) {
         let r = std::panic::catch_unwind(std::panic::AssertUnwindSafe(|| co.resume_with(p)));
         let res = match r { Ok(Ok(s)) => show(&s, &name), Ok(Err(_)) => "Err".to_string(), Err(_) => "PANIC".to_string() };
         let st = show(&cos[c].state(), &name);
-        emit(&format!("res={} st={} ev={} got={} log={}", res, st, evs_join(&evs[c].borrow()),
+        let cur = open_coroutine_core::coroutine::suspender::Suspender::<usize, usize>::current().is_some();
+        emit(&format!("res={} st={} ev={} got={} log={} cur={}", res, st, evs_join(&evs[c].borrow()),
             gots[c].borrow()[g0..].iter().map(|x| x.to_string()).collect::<Vec<_>>().join(","),
-            logs[c].borrow()[l0..].join(",")));
+            logs[c].borrow()[l0..].join(","), cur as u8));
     }
     // coroutines that are suspended mid-body are dropped here (force_reset)
     verif::clear_virtual_now();
